@@ -173,7 +173,7 @@ def string_enum(rng, nvariants=None, *, allow_default=True, allow_disabled=True,
     if rng.random() < 0.15:
         it.trailing_commas = True  # `V(u8,)`, `S { a: u8, }`, `#[strum(serialize = "x",)]`
     if rng.random() < 0.12:
-        it.via_macro = True        # the enum comes out of a macro_rules! expansion, attribute values passed in as fragments
+        it.via_macro = True if rng.random() < 0.6 else "idents"     # "idents": the variant names are macro fragments too        # the enum comes out of a macro_rules! expansion, attribute values passed in as fragments
     return it
 
 
